@@ -2,9 +2,11 @@ package world
 
 import (
 	"context"
+	"encoding/binary"
 	"errors"
 	"fmt"
 	"io"
+	"strings"
 	"time"
 
 	connect "github.com/bufbuild/connect-go"
@@ -44,6 +46,15 @@ func genC15(t *core.Tape, tier string) *Scenario {
 	}
 	stdPrograms(t, p)
 	mode := t.Pick([]int{3, 3, 3, 2}, "mode")
+	if (mode == 0 || mode == 2) && t.Bool(1, 4, "client.readmax") {
+		// a read limit the response messages may exceed: the library then
+		// discards the oversized payload, and the context may end meanwhile.
+		// (Not with a cancel operation inside the program: a Receive that fails
+		// on the limit waits for the end of the response, hence for a handler
+		// that may itself be waiting for that cancellation.)
+		sc.Clients[0].ReadMax = 64
+		sc.Notes["client_read_limit"]++
+	}
 	switch mode {
 	case 0: // canceller task: cancels at any scheduler step
 		p.CancelTask = true
@@ -220,9 +231,16 @@ func checkC15(w *World, st core.Status, r *RunResult) []Violation {
 		}
 		all := append(append([]OpRec{}, o.Ops...), o.OpsRcv...)
 		sendEOF := false
+		nrecv := 0 // response messages received so far: the index of the envelope a failing receive was on
 		for _, op := range all {
 			started := after(op.Start, op.StartT)
 			ended := after(op.End, op.EndT)
+			switch op.Op {
+			case "recv", "recvmore", "unary", "closeandreceive":
+				if op.Err == nil {
+					nrecv++
+				}
+			}
 			if !ended {
 				continue
 			}
@@ -261,6 +279,12 @@ func checkC15(w *World, st core.Status, r *RunResult) []Violation {
 				if inflight && errors.Is(op.Err, io.EOF) && op.Op == "recv" && o.H.Returned {
 					continue
 				}
+				if inflight && !codeOK(op.Err) && readLimitDecided(w, o, &op, nrecv) {
+					// the competing failure (an oversized message, wholly read and
+					// discarded) was complete before the operation returned
+					r.Probes["inflight_read_limit_complete"]++
+					continue
+				}
 				if !codeOK(op.Err) {
 					cls := "after-instant"
 					if inflight {
@@ -275,19 +299,25 @@ func checkC15(w *World, st core.Status, r *RunResult) []Violation {
 			}
 		}
 		_ = sendEOF
-		// the call's final outcome is never success
+		// the call's final outcome is never success, and carries the right code
+		// unless it was decided before the instant
 		if o.FinalSet {
-			finalAfter := false
-			for _, op := range all {
-				if (op.Op == "recv" || op.Op == "unary" || op.Op == "closeandreceive") && after(op.Start, op.StartT) {
-					finalAfter = true
+			var fin *OpRec
+			for i := range all {
+				op := &all[i]
+				if op.Op == "recv" || op.Op == "unary" || op.Op == "closeandreceive" || op.Op == "callserverstream" {
+					if (o.Final == nil && op.Err != nil && errors.Is(op.Err, io.EOF)) || (o.Final != nil && op.Err == o.Final) {
+						fin = op
+						break
+					}
 				}
 			}
-			if o.Final == nil && finalAfter {
-				add("final-success", fmt.Sprintf("the call ended in success although its context was %v before the handler returned", want))
-			}
-			if o.Final != nil && finalAfter && !codeOK(o.Final) {
-				add("final-wrong-code", fmt.Sprintf("final outcome %v, want code %v", o.Final, want))
+			if fin != nil && after(fin.Start, fin.StartT) {
+				if o.Final == nil {
+					add("final-success", fmt.Sprintf("the call ended in success although its context was %v before the handler returned", want))
+				} else if !codeOK(o.Final) {
+					add("final-wrong-code", fmt.Sprintf("final outcome %v, want code %v", o.Final, want))
+				}
 			}
 		}
 		// a handler that returns its context's error conveys the same classification
@@ -299,4 +329,34 @@ func checkC15(w *World, st core.Status, r *RunResult) []Violation {
 		}
 	}
 	return vs
+}
+
+// readLimitDecided: the operation failed because a response message exceeded
+// the client's read limit, and the client had consumed that whole message from
+// the transport when the operation returned - the failure owes nothing to the
+// context. (An operation still blocked discarding the message when the
+// context ended failed because of the context.)
+func readLimitDecided(w *World, o *CallObs, op *OpRec, idx int) bool {
+	p := o.Plan
+	if p.Raw != nil || op.Err == nil || op.DownRead < 0 {
+		return false
+	}
+	c := w.Sc.Clients[p.Client]
+	if c.ReadMax <= 0 || !strings.Contains(op.Err.Error(), "larger than configured max") {
+		return false
+	}
+	ex := o.Call.Exchange()
+	body := ex.Down.Bytes()
+	if c.Proto == PConnect && p.Kind == KUnary {
+		return ex.Down.Finished() && op.DownRead >= len(body) && len(body) > c.ReadMax
+	}
+	off := 0
+	for i := 0; off+5 <= len(body); i++ {
+		end := off + 5 + int(binary.BigEndian.Uint32(body[off+1:off+5]))
+		if i == idx {
+			return op.DownRead >= end
+		}
+		off = end
+	}
+	return false
 }
